@@ -143,3 +143,8 @@ def strip_value(f, n):
         if l is not None and l["k"] == "IntegerLiteral" and l.get("v") == 0:
             return r, True
     return n, False
+
+
+def in_loop_stmt(f, n):
+    """is node n syntactically nested in a loop statement of f"""
+    return any(a["k"] in ("ForStmt", "WhileStmt", "DoStmt", "CXXForRangeStmt") for a in f.ancestors(n))
